@@ -103,6 +103,7 @@ structure PlanFacts (c : Cmd) (env : Env) (a6 a4 : ListenArg) (p : Plan)
   ns6 : (mkPrep c env l6 l4 uid gid).ns6 ≠ [] → p.dp6 ≠ 0
   sub4 : (mkPrep c env l6 l4 uid gid).sub4 ≠ [] → p.rp4 ≠ 0
   ns4 : (mkPrep c env l6 l4 uid gid).ns4 ≠ [] → p.dp4 ≠ 0
+  hreq : (mkPrep c env l6 l4 uid gid).reqDns = true ↔ p.nslist ≠ []
   feats : assertFeatures env.avail (requiredGet l6.isSome env.avail.udp
       (mkPrep c env l6 l4 uid gid).reqDns uid.isSome gid.isSome) ASSERT_KEYS = none
 
@@ -123,6 +124,18 @@ theorem clientMain_plan_facts (hU : USED_PORTS_ALWAYS_BOUND = true)
   unfold DnsFact at hd
   rw [e6] at t6 hd
   rw [e4] at t4 hd
+  have hreq' : (mkPrep c env (resolveL6 env.avail a6) (resolveL4 env.avail a4) uid gid).reqDns = true ↔
+      P.nslist ≠ [] := by
+    rw [← hP]
+    constructor
+    · exact hdns
+    · intro hne
+      cases hq : P.reqDns with
+      | true => rfl
+      | false =>
+        exfalso; apply hne
+        rw [hP] at hq ⊢
+        exact mkPrep_reqDns_false _ _ _ _ _ _ hq
   refine { hl6 := rfl, hl4 := rfl, huid := hu, hgid := hg, hv6 := h6,
            hinc := by rw [hP], hexc := by rw [hP], hns := by rw [hP], hudp := eu,
            
@@ -130,7 +143,7 @@ theorem clientMain_plan_facts (hU : USED_PORTS_ALWAYS_BOUND = true)
            tcp6 := t6, tcp4 := t4, udpL := by rw [tu], dns := ?_,
            sub6 := by rw [← hP]; exact s6, ns6 := by rw [← hP]; exact n6,
            sub4 := by rw [← hP]; exact s4, ns4 := by rw [← hP]; exact n4,
-           feats := by rw [← hP]; exact hfe }
+           hreq := hreq', feats := by rw [← hP]; exact hfe }
   rcases hd with ⟨hq, d1, d2, d3⟩ | ⟨hq, q, q0, d1, d2, d3, d4⟩
   · left
     refine ⟨?_, d1, d2, d3⟩
